@@ -1,7 +1,7 @@
 (* C14 -- client metadata is minimal and can never break resolution (PARTIAL: the
    header validation itself lives in net/http; valid_header_value is a transcription
    of its rule, tied by the engine that sends real HTTP/2 requests).  Theorems only. *)
-From NX Require Import Bytes ClientInfo ClientFacts.
+From NX Require Import Bytes ClientInfo ClientFacts ClientMore.
 Open Scope Z_scope.
 
 (* reporting off: no device header at all *)
@@ -24,6 +24,30 @@ Theorem C14_model_short : forall profile ipt ipr m na nm,
   len (ci_model (lan_client_info profile ipt ipr (Some m) na nm)) <= 12.
 Proof. exact model_is_short. Qed.
 Print Assumptions C14_model_short.
+
+(* beyond the id, nothing of the last MAC bytes reaches the upstream: two MACs with the same vendor
+   prefix and the same id give the very same client info (hence the same headers) *)
+Theorem C14_mac_dependence : forall profile ipt ipr m m' na nm,
+  firstn 3 m = firstn 3 m' -> (3 <= length m)%nat -> (3 <= length m')%nat ->
+  short_id profile m = short_id profile m' ->
+  lan_client_info profile ipt ipr (Some m) na nm = lan_client_info profile ipt ipr (Some m') na nm.
+Proof. exact client_info_mac_dependence. Qed.
+Print Assumptions C14_mac_dependence.
+
+(* the full MAC is never sent: its text has at least 17 characters, the two MAC-derived header
+   values (id, model) are shorter *)
+Theorem C14_no_full_mac : forall profile ipt ipr m na nm k v,
+  (6 <= length m)%nat ->
+  In (k, v) (device_headers (Some (lan_client_info profile ipt ipr (Some m) na nm))) ->
+  k = 0 \/ k = 2 -> len v < len (mac_string m).
+Proof. exact mac_headers_too_short. Qed.
+Print Assumptions C14_no_full_mac.
+
+(* the id depends on the profile and the device bytes only *)
+Theorem C14_id_inputs : forall profile ipt ipt' ipr ipr' m na na' nm nm',
+  ci_id (lan_client_info profile ipt ipr (Some m) na nm) = ci_id (lan_client_info profile ipt' ipr' (Some m) na' nm').
+Proof. exact id_depends_on_profile_and_device. Qed.
+Print Assumptions C14_id_inputs.
 
 (* whatever name was discovered (any bytes), the X-Device-Name header that is sent
    is a valid header value: a name can never make the request be rejected *)
